@@ -92,6 +92,9 @@ func getPoolConfig(cfg *daemon.Config, daemonMode string, limit *client.Limits) 
 		if cfg.MaxENI > 0 && cfg.MaxENI < maxENI {
 			maxENI = cfg.MaxENI
 		}
+		if maxENI < 0 {
+			maxENI = 0
+		}
 
 		ipPerENI := limit.IPv4PerAdapter
 		if utils.IsWindowsOS() {
@@ -105,6 +108,9 @@ func getPoolConfig(cfg *daemon.Config, daemonMode string, limit *client.Limits) 
 		} else {
 			poolConfig.MaxPoolSize = cfg.MaxPoolSize
 		}
+		if poolConfig.MaxPoolSize < 0 {
+			poolConfig.MaxPoolSize = 0
+		}
 
 		poolConfig.MinPoolSize = cfg.MinPoolSize
 
@@ -113,6 +119,9 @@ func getPoolConfig(cfg *daemon.Config, daemonMode string, limit *client.Limits) 
 		}
 		if poolConfig.MinPoolSize > poolConfig.MaxPoolSize {
 			poolConfig.MinPoolSize = poolConfig.MaxPoolSize
+		}
+		if poolConfig.MinPoolSize < 0 {
+			poolConfig.MinPoolSize = 0
 		}
 
 		maxMemberENI = limit.MemberAdapterLimit
